@@ -158,4 +158,6 @@ def obligations(tier):
         obls.append(_obl("B/multi3/%s/k=%d" % (j, 3 if q else 4),
                          {"template": "multi", "join": j, "nsrc": 3, "small": False}, 3 if q else 4, B, nsrc=3))
     obls.extend(c05_step.obligations(tier))
+    from harness import c05_async
+    obls.extend(c05_async.obligations(tier))
     return obls
